@@ -38,7 +38,7 @@ RULE += e2e.RULE_SUFFIX
 
 DAY = model.US_PER_DAY
 SEC = 1_000_000
-OFFSETS = [-12 * 60, -8 * 60, 0, 5 * 60 + 30, 9 * 60, 14 * 60]
+OFFSETS = [-12 * 60, -(9 * 60 + 30), -8 * 60, -(3 * 60 + 30), 0, 5 * 60 + 30, 9 * 60, 12 * 60 + 45, 14 * 60]
 DELTAS = [-SEC, -1, 0, 1, SEC]
 COUNTRIES: List[Tuple[str, Optional[int]]] = [("us", None), ("es", None), ("jp", None), ("ie", None)] + [("generic", d) for d in (0, 1, 30, 365, 366, 730, 10**9)]
 
